@@ -189,6 +189,42 @@ def run(ctx):
             for k in list(sys.modules):
                 if k.split(".")[0] == pkg:
                     del sys.modules[k]
+    # directed: every exception class once in a fixed small pipeline where the failing function is kept (nested keep, and keep at
+    # the root): the exception that comes out is the very object that was raised, and nothing is stored or committed
+    real = pipeline.real_runner()
+    for ki, kind in enumerate(KINDS):
+        base = tempfile.mkdtemp(prefix="ddsverif_c10k_")
+        pkg = "c10k_%d_%d" % (os.getpid(), ki)
+        try:
+            real.reset_process_state()
+            real.set_store(["memory", "local"][ki % 2], os.path.join(base, "si"), os.path.join(base, "sd"))
+            src = ("import dds\nfrom ddsverif_rt import log, term, boom\n\n"
+                   "def ok():\n    log('ok')\n    return term('ok')\n\n"
+                   "def bad():\n    log('bad')\n    boom(%r, 'tok%d')\n\n"
+                   "def f0():\n    a = dds.keep('/k/ok', ok)\n    b = dds.keep('/k/bad', bad)\n    return term('f0', a, b)\n" % (kind, ki))
+            os.makedirs(os.path.join(base, pkg), exist_ok=True)
+            open(os.path.join(base, pkg, "__init__.py"), "w").close()
+            with open(os.path.join(base, pkg, "main.py"), "w") as fh:
+                fh.write(src)
+            real.load_world(base, pkg + ".main", None, accept=pkg)
+            for entry in ({"kind": "eval", "fun": "f0"}, {"kind": "keep", "fun": "bad", "path": "/k/top"}):
+                r = real.run(entry)
+                res.evaluations += 1
+                res.count("directed_kinds")
+                res.nontrivial("directed kind %s %s" % (kind, entry["kind"]))
+                e = r["error"]
+                if e is None or e.get("kind") != "exc" or e.get("cls") != kind or not e.get("same_object") or e.get("token") != "tok%d" % ki:
+                    res.violations.append({"what": "a kept function raises %s('tok%d'); what comes out of dds is %s (the same exception object is expected)" % (kind, ki, e),
+                                           "input": {"source": src, "entry": entry}, "kf": None})
+                    break
+                if r["synced"]:
+                    res.violations.append({"what": "a failed evaluation committed paths: %s" % (r["synced"],), "input": {"source": src, "entry": entry}, "kf": None})
+                    break
+        finally:
+            shutil.rmtree(base, ignore_errors=True)
+            for k in list(sys.modules):
+                if k.split(".")[0] == pkg:
+                    del sys.modules[k]
     pipeline.close_ref()
     res.rule = ("%d generated pipelines x failing function (quick: 3 per pipeline; thorough: every function) x exception classes %s x entry "
                 "{eval, keep} x stores {memory, local, local+cache}; each followed by the repaired pipeline; one case = (pipeline, failing "
